@@ -38,6 +38,9 @@ func scevOrderSource(depth int) string {
 		}
 	}
 	b.WriteString("\tfor i, j := y, a; i < n; j, i = j+1, i+1 {\n\t\tdst[i] = src[j]\n\t}\n}\n")
+	// pure builtin calls of one loop that feed each other across blocks: whether the second one can be
+	// hoisted depends on whether the first one already was, i.e. on the order the blocks are visited in
+	b.WriteString("\nfunc Chain(a, b []int, flag bool, k int) int {\n\ts := 0\n\tfor i := 0; i < k; i++ {\n\t\tn := len(a)\n\t\tif flag {\n\t\t\ts += max(n, len(b))\n\t\t} else {\n\t\t\ts += min(n, cap(b))\n\t\t}\n\t\tif i > 3 {\n\t\t\ts -= max(len(a), min(n, 7))\n\t\t}\n\t}\n\treturn s\n}\n")
 	return b.String()
 }
 
